@@ -781,6 +781,10 @@ def mutations(target, req, res):
         return (label, need, with_sa([(num, p, spi, tuple(new_ts))]))
 
     yield ('authentic', False, list(res['payloads']))
+    # the same suite, its transforms listed in another order (any order is legal; KEYMAT is taken in the order of RFC 7296
+    # 2.17 whatever the order on the wire)
+    yield one('reorder:reversed', tuple(reversed(ts)))
+    yield one('reorder:integ-first', tuple(sorted(ts, key=lambda t: (t[0] != 3, t[0]))))
     for i, t in enumerate(ts):
         ty = TN.get(t[0], t[0])
         yield one('remove:%s' % ty, ts[:i] + ts[i + 1:])
@@ -878,6 +882,19 @@ def tamper_case(target, label):
                 v['ke'], sorted(groups))))
     accepted = (bool(after['ike']) or any(v['exch'] == 35 for v in later)) if target == 'INIT' else \
         (len(after['kids']) > len(before['kids']) or len(after['newsa']) > len(before['newsa']))
+    if accepted and target != 'INIT' and label.startswith(('authentic', 'reorder:')):
+        # same content as the authentic response: both kernels end up with mirror images, keys included
+        ka, kb = w.endpoints['A'].kernel.sad, w.endpoints['B'].kernel.sad
+        for key in sorted(set(ka) & set(kb)):
+            if ka[key]['algs'] != kb[key]['algs']:
+                bad.append(('keys-differ-between-the-peers', 'SA %s/%s: A installed %r, B installed %r' % (
+                    key[0], key[2].hex(), {k: (v['name'], v['key'].hex()[:16]) for k, v in ka[key]['algs'].items()},
+                    {k: (v['name'], v['key'].hex()[:16]) for k, v in kb[key]['algs'].items()})))
+        if set(ka) != set(kb):
+            bad.append(('kernels-differ', 'SAs only at A %s, only at B %s' % (sorted((x[0], x[2].hex()) for x in set(ka) - set(kb)),
+                                                                              sorted((x[0], x[2].hex()) for x in set(kb) - set(ka)))))
+    if label.startswith('reorder:') and not accepted:
+        bad.append(('refused-a-reordered-suite', 'the authentic suite with its transforms in another order was not accepted'))
     if must_refuse and accepted:
         bad.append(('accepted-a-response-not-drawn-from-the-offer',
                     'A went on (states %r, CHILD_SAs %d, NEWSA %d, IKE suite %s) after a response whose proposal is not one '
